@@ -10,9 +10,11 @@ import ChialispModel.Base.Val
 namespace Path
 
 /-- bits below the top 1, least significant first (the walk order). `bitsOf 0 = bitsOf 1 = []`. -/
-def bitsOf (p : Nat) : List Bool :=
-  if _h : p ≤ 1 then [] else (p % 2 == 1) :: bitsOf (p / 2)
-decreasing_by omega
+def bitsOfAux : Nat → Nat → List Bool
+  | 0, _ => []
+  | fuel+1, p => if p ≤ 1 then [] else (p % 2 == 1) :: bitsOfAux fuel (p / 2)
+
+def bitsOf (p : Nat) : List Bool := bitsOfAux p p
 
 def walk : List Bool → Val → Res
   | [], v => .ok v
